@@ -999,11 +999,42 @@ func (e *Engine) verifyFunction(key string, extra *FuncSpec) (res *FuncResult) {
 		}
 	}
 	path := shortKey(key)
+	// a closure verified on its own: each captured variable is some existing
+	// heap cell; its entry value is visible to the contract under its name
+	var bindings []Val
+	captured := map[string]Val{}
+	for _, fv := range fn.FreeVars {
+		pt, ok := fv.Type().Underlying().(*types.Pointer)
+		if !ok {
+			unsupp("captured value %s of %s", fv.Name(), key)
+		}
+		ref := fx.decls.Fresh("cap_"+fv.Name(), sInt)
+		fx.assumes = append(fx.assumes, and(le("1", ref), le(ref, st.alloc)))
+		esh := shapeOf(pt.Elem())
+		bindings = append(bindings, Val{sh: shapeOf(fv.Type()), ts: []T{ref}})
+		cur := fx.loadObj(st, esh, ref)
+		fx.assumes = append(fx.assumes, typeInvariant(cur))
+		fx.assumeRefsBelow(st, cur)
+		captured[fv.Name()] = cur
+	}
+	if len(bindings) > 0 {
+		fx.noteAssumption("closure verified on its own: captured variables are arbitrary existing cells (distinct captured variables may not alias)")
+		for i := range bindings {
+			for j := i + 1; j < len(bindings); j++ {
+				if bindings[i].sh.key == bindings[j].sh.key {
+					fx.assumes = append(fx.assumes, not(eq(bindings[i].ts[0], bindings[j].ts[0])))
+				}
+			}
+		}
+	}
 	// preconditions
 	pre := st.clone()
 	fr0 := &Frame{fx: fx, fn: fn, params: map[string]Val{}, regs: map[ssa.Value]Val{}, cells: map[*ssa.Alloc]*Cell{}, iters: map[*ssa.Range]*Cell{}}
 	for i, p := range fn.Params {
 		fr0.params[p.Name()] = args[i]
+	}
+	for n, v := range captured {
+		fr0.params[n] = v
 	}
 	fr0.entry = pre
 	lets := map[string]CV{}
@@ -1051,7 +1082,7 @@ func (e *Engine) verifyFunction(key string, extra *FuncSpec) (res *FuncResult) {
 	if spec != nil && !spec.Inline {
 		fx.frame = &frameInfo{locs: fr0.frameLocs(spec, pre, lets), preAlloc: pre.alloc}
 	}
-	out, vals := fx.execFunction(fn, args, nil, st, path, 0, true)
+	out, vals := fx.execFunction(fn, args, bindings, st, path, 0, true)
 
 	// reachability of the normal exit
 	fx.cover = append(fx.cover, &Obligation{Name: path + "/vacuity/return_reachable", Kind: "cover", Guard: "true", Cond: not(out.guard), NAssume: len(fx.assumes), Func: key})
